@@ -1,0 +1,15 @@
+//go:build go1.20
+
+package decorator
+
+import (
+	"go/ast"
+	"go/token"
+)
+
+// setFileExtent records the start and end of the restored file on the node. go/types (since
+// go1.22) finds the file of a position through these fields and panics when they are not set.
+func setFileExtent(f *ast.File, start, end token.Pos) {
+	f.FileStart = start
+	f.FileEnd = end
+}
